@@ -22,6 +22,32 @@ func init() {
 }
 
 func runC25(c *eng.Ctx) {
+
+	// the size of an uploaded chunk is what this client sent (the clear length), not what the volume server answers: on
+	// an "unchanged" answer to a retried upload the server reports size 0, and a chunk of size 0 is dropped from the file.
+	// Every return of doUploadData that hands out a result has stored the clear length into it
+	if fn := c.NeedFunc("weed/operation", "doUploadData"); fn != nil {
+		sizeSt := func(in ssa.Instruction) bool {
+			st, ok := in.(*ssa.Store)
+			return ok && eng.IsField(st.Addr, "UploadResult.Size")
+		}
+		isNilRes := func(cond ssa.Value) (bool, bool) {
+			b, ok := cond.(*ssa.BinOp)
+			if !ok || !eng.IsNilConst(b.Y) || eng.TypeName(b.X.Type()) != "UploadResult" {
+				return false, false
+			}
+			return true, b.Op == token.EQL
+		}
+		ups := eng.Find(fn, eng.PlainCallTo("operation.upload_content"))
+		if len(ups) == 0 {
+			c.Undecided("GUARD-commit", eng.FuncName(fn)+" chunk-size", fn.Pos(), "upload call not found")
+		}
+		for i, up := range ups {
+			hit, path := eng.Search(eng.After(up), eng.IsReturn, eng.SearchOpt{Barrier: sizeSt, Cut: eng.PassEdges(fn, isNilRes)})
+			c.Ob("GUARD-commit", fmt.Sprintf("%s chunk-size-is-what-was-sent#%d", eng.FuncName(fn), i), hit == nil && len(eng.Find(fn, sizeSt)) > 0, up.Pos(),
+				"after an upload that produced a result, every return has set the result's size to the clear length this client sent"+pathNote(c.P, fn, hit, path))
+		}
+	}
 	P := c.P
 	up := c.NeedFunc("weed/server", "(*FilerServer).uploadReaderToChunks")
 	if up != nil {
